@@ -132,7 +132,7 @@ def load(repo=None, features=(), use_cache=True):
     return facts, meta
 
 
-def _prune_cache(keep, max_files=12):
+def _prune_cache(keep, max_files=80):
     try:
         fs = [os.path.join(CACHE, f) for f in os.listdir(CACHE) if f.startswith("facts-") and f.endswith(".json")]
         fs.sort(key=lambda p: os.path.getmtime(p))
